@@ -118,7 +118,9 @@ TEXT = {
             'all pass, the next element having been tested and failed; filtered = exactly the elements whose test differs from neg, order '
             'kept (filter / reject); an erroring item or callback is raised. Only these helpers are decided by proof.'),
     'C12': ('Verus proves the type-predicate kernel: is_type(type_of(v), v) and is_type(anything, v) hold for every value, '
-            'number accepts every numeric level, and builtin types classify by constructor.'),
+            'number accepts every numeric level, and builtin types classify by constructor; and struct construction (call_type): the '
+            'result is an instance of that struct holding the arguments followed by the defaults of the remaining fields, Ok exactly when '
+            'every field not given has a default.'),
 }
 BOUNDED_NOTE = (' In addition a BOUNDED stand-in (a grid of programs run on the real interpreter built from the tree, compared with exact '
                 'reference semantics; bounds in evidence coverage.bounded) covers the functions this property depends on that no verifier '
